@@ -303,6 +303,10 @@ class Evaluator:
                 return S.vint(a.t - b.t)
             if op is ast.Mult:
                 return S.vint(a.t * b.t)
+            if op is ast.Mod and z3.is_int_value(b.t) and b.t.as_long() > 0:
+                return S.vint(a.t % b.t)       # Python's % with a positive modulus is z3's (result in [0, m))
+            if op is ast.FloorDiv and z3.is_int_value(b.t) and b.t.as_long() > 0:
+                return S.vint(a.t / b.t)
         if a.ty == T_NAME and b.ty == T_NAME and op is ast.Add:
             return V(T_NAME, S.concat_f(a.t, b.t))
         if a.ty[0] == 'set' and a.ty == b.ty:
@@ -901,7 +905,11 @@ class Engine:
                 # map over a sequence
                 q = z3.FreshInt('mq')
                 path.env.update(ev.bind_target(g.target, S.seq_get(it, q)))
-                e = ev.ev(node.elt, path, spec)
+                path.guards.append(And(0 <= q, q < S.seq_n(it)))      # obligations of the element expression hold for positions in range
+                try:
+                    e = ev.ev(node.elt, path, spec)
+                finally:
+                    path.guards.pop()
                 r = self.fresh_seq(e.ty, 'map')
                 path.env.clear(); path.env.update(saved)
                 path.assume(S.seq_n(r) == S.seq_n(it))
@@ -1037,7 +1045,20 @@ class Engine:
                 fields[fn_] = given[fn_]
             else:
                 fields[fn_] = self.default_obj_field(ft)
-        return VObj(clsname, fields)
+        obj = VObj(clsname, fields)
+        pq = '%s:%s.__post_init__' % (OBJ_MODULE.get(clsname, ''), clsname)
+        pc = REGISTRY.get(pq)
+        if pc is not None:
+            # dataclass __post_init__: applied through its (assumed) contract
+            env = {'self': obj.copy(), 'old': Namespace({'self': obj})}
+            self.assumptions_used.add('trusted contract: ' + pq)
+            for cn, text in pc.ensures.items():
+                nd = ast.parse(text, mode='eval').body
+                lhs = ast.unparse(nd.left)
+                val = Evaluator(self, pq.split(':')[0]).ev(nd.comparators[0], Path(env, path.hyps), True)
+                self.set_loc(env, lhs, val)
+            obj = env['self']
+        return obj
 
     def default_obj_field(self, ft):
         t = S.parse_type(ft)
@@ -1820,6 +1841,18 @@ class Engine:
         v = st.value
         tname = st.targets[0].id if isinstance(st.targets[0], ast.Name) else None
         empty = (isinstance(v, (ast.List, ast.Tuple)) and not v.elts) or (isinstance(v, ast.Dict) and not v.keys)
+        if isinstance(v, ast.DictComp) and tname is not None and len(v.generators) == 1 and not v.generators[0].ifs \
+                and any(isinstance(n_, ast.Call) for n_ in ast.walk(v.value)) and tname in self.c.locals:
+            # {k: f(...) for x in it} with a call in the value: executed as  d = {}; for x in it: d[k] = f(...)
+            path.env[tname] = self.typed_empty(tname, None)
+            g_ = v.generators[0]
+            loop = ast.For(target=g_.target, iter=g_.iter, orelse=[], body=[ast.Assign(
+                targets=[ast.Subscript(value=ast.Name(id=tname, ctx=ast.Load()), slice=v.key, ctx=ast.Store())], value=v.value)])
+            ast.copy_location(loop, st)
+            ast.fix_missing_locations(loop)
+            self.loop_ordinals[id(loop)] = 0
+            self.seen_loop_keys.add(self.loop_key(loop))
+            return self.st_For(loop, path)
         if empty:
             val = self.typed_empty(tname, None)
         else:
@@ -1938,11 +1971,20 @@ class Engine:
         c = ev.ev_bool(st.test, path, False)
         c = z3.simplify(c)
         out = []
-        for cond, body in ((c, st.body), (Not(c), st.orelse)):
+        narrow = None
+        t_ = st.test
+        if isinstance(t_, ast.Compare) and len(t_.ops) == 1 and isinstance(t_.ops[0], (ast.Is, ast.IsNot)) and isinstance(t_.left, ast.Name) \
+                and isinstance(t_.comparators[0], ast.Constant) and t_.comparators[0].value is None:
+            v_ = path.env.get(t_.left.id)
+            if isinstance(v_, V) and v_.ty[0] == 'opt':
+                narrow = (t_.left.id, isinstance(t_.ops[0], ast.Is))
+        for bi, (cond, body) in enumerate(((c, st.body), (Not(c), st.orelse))):
             if z3.is_false(z3.simplify(cond)):
                 continue
             p1 = path.copy()
             p1.assume(cond)
+            if narrow is not None and ((bi == 1) == narrow[1]):
+                p1.env[narrow[0]] = S.opt_val(p1.env[narrow[0]])     # known not None on this branch
             try:
                 out += self.run(body, p1)
             except Unsupported:
@@ -2178,8 +2220,9 @@ class Engine:
         base_env = lambda p: dict(p.env, entry=entry, old=self.old_ns)
         results = []
         seen_name = spec.index + '_seen'
-        if mode != 'index' or 'seen_seq' not in locals() or seen_seq.ty[1][0] not in ('name', 'int'):
+        if mode != 'index' or 'seen_seq' not in locals():
             seen_seq = None
+        seen_ghost = seen_seq is not None and seen_seq.ty[1][0] in ('name', 'int')
 
         def seen_at(i_term, p_):
             """ghost: the set of elements at positions < i (a named constant with its definition)."""
@@ -2201,7 +2244,7 @@ class Engine:
         gty = T_INT if mode == 'index' else ('set', qt)
         env0 = base_env(path)
         env0[gname] = V(gty, g0)
-        if seen_seq is not None:
+        if seen_ghost:
             env0[seen_name] = S.set_empty(seen_seq.ty[1])
         self.check_inv(spec, key, env0, path, 'inv-init')
         # ---- arbitrary iteration
@@ -2219,21 +2262,21 @@ class Engine:
             p.assume(And(dom(q), Not(Select(g, q))))
         envh = base_env(p)
         envh[gname] = V(gty, g)
-        if seen_seq is not None:
+        if seen_ghost:
             seen_h = seen_at(g, p)
             envh[seen_name] = seen_h
         self.assume_inv(spec, envh, p)
         self.assume_lemmas(spec, envh, p)
         p.env.update(bind(q))
         p.env[gname] = V(gty, g)
-        if seen_seq is not None:
+        if seen_ghost:
             p.env[seen_name] = seen_h
         outs = self.run(st.body, p)
         for p2, o in outs:
             if o in (None, 'continue'):
                 env2 = base_env(p2)
                 env2[gname] = V(gty, g + 1 if mode == 'index' else Store(g, q, True))
-                if seen_seq is not None:
+                if seen_ghost:
                     env2[seen_name] = V(seen_h.ty, Store(seen_h.t, Select(S.seq_arr(seen_seq), g), True))
                 self.check_inv(spec, key, env2, p2, 'inv-step')
             elif o == 'break':
@@ -2245,13 +2288,23 @@ class Engine:
         self.havoc(p3, names, locs)
         env3 = base_env(p3)
         env3[gname] = V(gty, n_it if mode == 'index' else whole.t)
-        if seen_seq is not None:
+        if seen_ghost:
             env3[seen_name] = seen_at(n_it, p3)
         self.assume_inv(spec, env3, p3)
         self.assume_lemmas(spec, env3, p3)
-        # targets assigned by the loop are unknown afterwards
+        # targets assigned by the loop afterwards: the last element (plain sequence, name target), else unknown
         for tn in [n.id for n in ast.walk(st.target) if isinstance(n, ast.Name)]:
-            if tn in p3.env and isinstance(p3.env[tn], V) and p3.env[tn].ty != T_NONE:
+            if mode == 'index' and seen_seq is not None and isinstance(st.target, ast.Name):
+                last = S.seq_get(seen_seq, n_it - 1)
+                used_later = any(isinstance(x, ast.Name) and x.id == tn and isinstance(x.ctx, ast.Load)
+                                 and getattr(x, 'lineno', 0) > getattr(st, 'end_lineno', 10 ** 9) for x in ast.walk(self.fn))
+                if tn in path.env and isinstance(path.env[tn], V) and path.env[tn].ty == last.ty:
+                    p3.env[tn] = V(last.ty, If(n_it > 0, last.t, path.env[tn].t))
+                else:
+                    if used_later:
+                        self.add_obligation(p3, 'noraise', 'loop variable %s read after a possibly empty loop' % tn, n_it > 0, 'UnboundLocalError')
+                    p3.env[tn] = last
+            elif tn in p3.env and isinstance(p3.env[tn], V) and p3.env[tn].ty != T_NONE:
                 p3.env[tn] = S.fresh(p3.env[tn].ty, 'after_' + tn)
         if st.orelse:
             results += self.run(st.orelse, p3)
@@ -2323,6 +2376,7 @@ class Engine:
                 self.loop_ordinals[id(n)] = seen.get(k, 0)
                 seen[k] = seen.get(k, 0) + 1
         self.bound_loops = set()
+        self.seen_loop_keys = set()
         self.bound_cuts = set()
         self.unproved_termination = []
         self.pruned = []
@@ -2383,7 +2437,7 @@ class Engine:
         # unbound loop specs -> the sidecar no longer matches the code
         for k in c.loops:
             base = k.split('#')[0]
-            if base not in seen:
+            if base not in seen and base not in self.seen_loop_keys:
                 raise Unsupported('contract names a loop that no longer exists: ' + k)
         return self.obligations
 
